@@ -125,6 +125,7 @@ func copiesOf(v ssa.Value) map[ssa.Value]bool {
 
 type ownUse struct {
 	kind  string // next, close, defer-close, wrapped, handed, captured, other
+	param *ssa.Parameter // captured: the literal receives the value as this parameter (go func(src Stream[T]) {...}(s))
 	in    ssa.Instruction
 	field string        // wrapped: field name
 	strct *ssa.Alloc    // wrapped: struct literal
@@ -210,6 +211,23 @@ func usesOfOwned(v ssa.Value) []ownUse {
 				}
 			case *ssa.MakeClosure:
 				uses = append(uses, ownUse{kind: "captured", in: x, fn: x.Fn.(*ssa.Function)})
+			case *ssa.Go:
+				// go func(ctx context.Context, src Stream[T], items chan<- T) {...}(bgCtx, s, c): handed to the goroutine's
+				// literal as an argument instead of being captured
+				if mc, isMC := x.Call.Value.(*ssa.MakeClosure); isMC {
+					lit := mc.Fn.(*ssa.Function)
+					done := false
+					for k, a := range x.Call.Args {
+						if a == cp && k < len(lit.Params) {
+							uses = append(uses, ownUse{kind: "captured", in: mc, fn: lit, param: lit.Params[k]})
+							done = true
+						}
+					}
+					if done {
+						continue
+					}
+				}
+				uses = append(uses, ownUse{kind: "other", in: x})
 			case *ssa.IndexAddr:
 				// element of an owned slice
 				if x.X == cp {
@@ -559,11 +577,17 @@ func allocReturned(al *ssa.Alloc) bool {
 func ruleOwnGoroutine(c *Ctx, r *R, op ownedParam, key string, uses []ownUse) {
 	var users []*ssa.MakeClosure
 	bound := map[*ssa.MakeClosure]ssa.Value{}
+	boundParam := map[*ssa.MakeClosure]*ssa.Parameter{}
 	for _, u := range uses {
 		if u.kind != "captured" {
 			continue
 		}
 		mc := u.in.(*ssa.MakeClosure)
+		if u.param != nil {
+			boundParam[mc] = u.param
+			users = append(users, mc)
+			continue
+		}
 		for _, b := range mc.Bindings {
 			if b == ssa.Value(op.param) {
 				bound[mc] = b
@@ -613,6 +637,9 @@ func ruleOwnGoroutine(c *Ctx, r *R, op ownedParam, key string, uses []ownUse) {
 		return
 	}
 	loads := freeVarLoads(mc, bound[mc])
+	if bp := boundParam[mc]; bp != nil {
+		loads = []ssa.Value{bp}
+	}
 	// the variable (cell) the stream lives in, for uses inside function literals nested in the goroutine
 	var ownCell *ssa.Alloc
 	if al, ok := bound[mc].(*ssa.Alloc); ok {
